@@ -1,7 +1,10 @@
 //go:build verif
 
-// Contracts for the generated bindings of this package (property C05), derived mechanically by
-// /verif/tools/gencontracts.py from the generated source; checked by /verif/govc. Comments only.
+// Contracts for the generated bindings of this package, derived mechanically by /verif/tools/gencontracts.py;
+// checked by /verif/govc. Comments only. C05 (decoder totality): from the shape of the generated readers.
+// C03 (schema encoding): from the IDL file of the package - for a struct whose members are all scalars or
+// strings, WriteTo appends exactly the members in ascending tag order, each under its declared tag and wire
+// type, required ones always, optional ones unless equal to their declared default.
 
 package logf
 
@@ -29,3 +32,24 @@ package logf
 //@   ensures [C05] readBuf.buf.i >= p0
 //@   ensures [C05] validR(readBuf)
 //@   safety [C05]
+//
+//@ func (*LogInfo).WriteTo
+//@   requires st != nil && validB(buf) && len(st.Appname) < 4294967296 && len(st.Servername) < 4294967296 && len(st.SFilename) < 4294967296 && len(st.SFormat) < 4294967296 && len(st.Setdivision) < 4294967296 && len(st.SConcatStr) < 4294967296 && len(st.SSepar) < 4294967296 && len(st.SLogType) < 4294967296
+//@   let e0 = buf.buf.bytes
+//@   let e1 = e0 ++ encString(0, st.Appname)
+//@   let e2 = e1 ++ encString(1, st.Servername)
+//@   let e3 = e2 ++ encString(2, st.SFilename)
+//@   let e4 = e3 ++ encString(3, st.SFormat)
+//@   let e5 = (st.Setdivision != "" ? e4 ++ encString(4, st.Setdivision) : e4)
+//@   let e6 = (st.BHasSufix != true ? e5 ++ encBool(5, st.BHasSufix) : e5)
+//@   let e7 = (st.BHasAppNamePrefix != true ? e6 ++ encBool(6, st.BHasAppNamePrefix) : e6)
+//@   let e8 = (st.BHasSquareBracket != false ? e7 ++ encBool(7, st.BHasSquareBracket) : e7)
+//@   let e9 = (st.SConcatStr != "_" ? e8 ++ encString(8, st.SConcatStr) : e8)
+//@   let e10 = (st.SSepar != "|" ? e9 ++ encString(9, st.SSepar) : e9)
+//@   let e11 = (st.SLogType != "" ? e10 ++ encString(10, st.SLogType) : e10)
+//@   let pre = e11
+//@   opaque head encInt8 encInt16 encInt32 encInt64 encString encBool
+//@   perreturn
+//@   modifies buf.buf.bytes
+//@   ensures [C03] err == nil && buf.buf.bytes == pre
+//@   safety [C03]
